@@ -21,3 +21,7 @@ package slip
 //@ func slip.(*UnsignedByte).AsFixOrBig
 //@   property C05
 //@   ensures fix-or-big: is(result, Fixnum) || is(result, ptr(Bignum))
+
+//@ func slip.DefLambda
+//@   property C01
+//@   ensures fresh-result: fresh(result)
